@@ -63,8 +63,16 @@ func decodeString(f reflect.Type, t reflect.Type, data any) (any, error) {
 		return fmt.Sprintf("%v", data), nil
 	}
 	if f.Kind() == reflect.Ptr {
-		f = f.Elem()
-		data = reflect.ValueOf(data).Elem().Interface()
+		// Dereference the pointer(s); a nil pointer anywhere in the chain is left for mapstructure to handle as is
+		v := reflect.ValueOf(data)
+		for v.Kind() == reflect.Ptr {
+			if v.IsNil() {
+				return data, nil
+			}
+			v = v.Elem()
+		}
+		f = v.Type()
+		data = v.Interface()
 	}
 	if f.Kind() != reflect.String {
 		return data, nil
